@@ -181,7 +181,9 @@ def check_r062(fx, rep, cg):
             if n.get("k") != "MethodCall" or n["method"] not in DROPPERS:
                 continue
             rt = n.get("recv_ty") or ""
-            if ("VecDeque<vm::thread::VMThread>" in rt or "Vec<vm::state::VMState>" in rt) and not (b["def"] == adv["def"] and n["method"] == "pop_front"):
+            # a private method of the VM that only the advance function calls is part of it (read there, inlined)
+            part_of_adv = b.get("impl_self") == adv.get("impl_self") and set(cg.callers_of(b["def"])) == {adv["def"]}
+            if ("VecDeque<vm::thread::VMThread>" in rt or "Vec<vm::state::VMState>" in rt) and not ((b["def"] == adv["def"] or part_of_adv) and n["method"] == "pop_front"):
                 rep.oblige(False, "R06.2", f"drops-threads:{F.strip_generics(b['def'])}:{n['method']}", F.loc(n["span"]), f"`{b['def']}` removes threads / stored states with `{n['method']}`")
     # consume moves the stored states unfiltered
     er = [n for b in fx.fn_bodies() if b.get("impl_self") == VM for n, _ in F.walk(b["hir"]["value"]) if n.get("k") == "Struct" and n.get("adt") == "vm::ExecutionResult"]
@@ -208,6 +210,25 @@ def check_r063(fx, rep):
             if c.get("k") == "MethodCall" and c["method"] == "extend" and any(x is i for i in incl for x, _ in F.walk(c)):
                 cond = any(a.get("k") in ("If", "Match") and not a.get("exp") for a, _ in ps)
                 ext.append(not cond)
+        if not ext and incl:
+            # iterator form: the export is a link of the chain that is collected into the answer
+            tail = (root.get("block") or root).get("expr") if root.get("k") == "Block" else root
+            while tail is not None and tail.get("k") in ("DropTemps", "Use"):
+                tail = tail.get("e") or tail.get("expr")
+            links, cur, pure = [], tail, True
+            while cur is not None and cur.get("k") == "MethodCall":
+                if cur["method"] in ("filter", "filter_map", "take", "skip", "take_while", "skip_while", "map_while", "step_by", "flat_map", "map", "zip", "scan", "dedup"):
+                    pure = False
+                elif cur["method"] not in ("chain", "into_iter", "iter", "collect", "cloned", "copied"):
+                    break
+                links.append(cur)
+                cur = cur.get("recv")
+            if cur is not None:
+                links.append(cur)
+            inside = any(x is i for i in incl for l in links for part in ([l] if l.get("k") != "MethodCall" else (l.get("args") or [])) for x, _ in F.walk(part))
+            cond = any(a.get("k") in ("If", "Match") and not a.get("exp") for c, ps in F.calls(root) if any(c is i for i in incl) for a, _ in ps)
+            if tail is not None and tail.get("k") == "MethodCall" and pure and inside and not cond:
+                ext.append(True)
         rep.oblige(bool(ext) and all(ext), "R06.3", "state-exports-storage", F.loc(sv["span"]), "the state's value export does not (unconditionally) include the storage export: storage accesses never reach the type checker", sample={"rule": "R06.3", "includes": "storage.stores_as_values()"})
     se = fx.body(f"{STORAGE}::stores_as_values")
     if rep.anchor("R06.3", se is not None, "Storage::stores_as_values"):
@@ -423,6 +444,17 @@ def check_r066(fx, rep):
                     # (b) else-chain after `pairs.is_empty()`
                     if key == "else" and ct[0] == "call" and str(ct[1]).endswith("::is_empty") and ct[2] and ct[2][0][0] == "local" and ct[2][0][1] == lid:
                         safe = True
+                # (c) a later arm of `match pairs.as_slice()` / `match pairs.len()` whose empty case is taken by an earlier arm
+                if a.get("k") == "Match":
+                    sc = T.term(a["scrut"], T.Env())
+                    on_pairs = sc[0] == "call" and str(sc[1]).split("::")[-1] in ("as_slice", "len", "as_ref") and sc[2] and sc[2][0][0] == "local" and sc[2][0][1] == lid
+                    mine = next((i for i, arm in enumerate(a["arms"]) if any(x is n for x, _ in F.walk(arm["body"]))), None)
+                    if on_pairs and mine:
+                        for arm in a["arms"][:mine]:
+                            pt = arm["pat"]
+                            empty_pat = (pt.get("p") == "Slice" and not pt.get("before") and not pt.get("after") and "mid" not in pt) or (pt.get("p") == "Lit" and str(pt["value"].get("v")) == "0")
+                            if empty_pat and not arm.get("guard"):
+                                safe = True
             rep.oblige(safe, "R06.6", "empty-packed-still-a-row", F.loc(n["span"]), "a slot whose packed type has no spans is returned as an empty list of entries: the layout builder then adds no row for that slot", sample={"rule": "R06.6", "guard": "pairs.is_empty() => Any"})
 
 
@@ -459,17 +491,33 @@ def check_r067(fx, rep):
                 rep.fn(b["def"])
                 w = F.loc(st["span"])
                 exact = False
-                for anc, key in sps:
-                    cond = anc.get("cond") if anc.get("k") == "If" and key == "then" else None
-                    if cond is None or cond.get("k") != "Let":
-                        continue
-                    call = F.strip(cond["init"])
+
+                def exact_lookup(call):
+                    call = F.strip(call)
                     if call.get("k") == "MethodCall" and call["method"] in ("get_by_left", "get_by_right", "get") and call["args"]:
                         t = T.term(call["args"][0], T.env_at(sps, st, mutated), mutated)
                         while t[0] == "call" and isinstance(t[1], str) and F.strip_generics(t[1]).split("::")[-1] in ("value_le", "value", "clone") and t[2]:
                             t = t[2][0]
-                        if t[0] == "local" and t[1] in consts:
-                            exact = True
+                        return t[0] == "local" and t[1] in consts
+                    return False
+
+                for anc, key in sps:
+                    cond = anc.get("cond") if anc.get("k") == "If" and key == "then" else None
+                    if cond is not None and cond.get("k") == "Let" and exact_lookup(cond["init"]):
+                        exact = True
+                    # the production follows `let x = <lookup>?;` / `let Some(x) = <lookup> else { return None }` in the same block:
+                    # it is reached only with a hit
+                    if "stmts" in anc and "k" not in anc:
+                        for s_ in anc["stmts"]:
+                            if any(x is st for x, _ in F.walk(s_)):
+                                break
+                            if s_.get("s") != "Let" or "init" not in s_:
+                                continue
+                            i_ = F.strip(s_["init"])
+                            if i_.get("k") == "Match" and "TryDesugar" in i_.get("source", "") and i_["scrut"].get("k") == "Call" and i_["scrut"]["args"] and exact_lookup(i_["scrut"]["args"][0]):
+                                exact = True
+                            if "els" in s_ and exact_lookup(i_) and any(v == "Some" for _, v in (F.pat_variants(s_["pat"]) or set())) and T.diverges(s_["els"]):
+                                exact = True
                 ok = st.get("variant") == "Sha3" and exact
                 rep.oblige(
                     ok,
